@@ -216,6 +216,8 @@ def main():
                         if k.startswith(pid + '.'):
                             failed[k] = v
                             replays_extra[k] = r.get('raw', '')[-4000:]
+                            if v.get('replayed'):
+                                replay_texts[k] = v['replayed']
                     undec += r.get('undecided', [])
                     unit_reports += r.get('reports', [])
                     for f in r.get('scan', []):
